@@ -14,26 +14,48 @@ def sh(cmd, timeout=900):
     p = subprocess.run(cmd, shell=True, env=ENV, capture_output=True, text=True, timeout=timeout)
     return p.returncode, p.stdout + p.stderr
 
-def run_checks():
+def run_checks(repo="/repo", workers=10):
     props = ["C%02d" % k for k in range(1, 21)]
     def runp(p):
         vd = tempfile.mkdtemp(prefix="seedchk-")
         os.makedirs(os.path.join(vd, "evidence"))
         shutil.copy("/verif/known_findings.txt", vd)
-        r, o = sh(f"/verif/bin/scrapcheck -prop {p} -tier quick -repo /repo -verif {vd}", timeout=300)
+        r, o = sh(f"/verif/bin/scrapcheck -prop {p} -tier quick -repo {repo} -verif {vd}", timeout=300)
         shutil.rmtree(vd, ignore_errors=True)
         lines = [l for l in o.splitlines() if ": violated:" in l or ": undecided:" in l]
         rules = sorted({l.split("[")[-1].split(" @ ")[0] for l in lines if "[" in l})
         return p, r, rules, (lines[0][:300] if lines else "")
     out = {}
-    with concurrent.futures.ThreadPoolExecutor(max_workers=10) as ex:
+    with concurrent.futures.ThreadPoolExecutor(max_workers=workers) as ex:
         for p, r, rules, first in ex.map(runp, props):
             if r != 0:
                 out[p] = {"exit": r, "rules": rules, "first_report": first}
     return out
 
+def fast_one(seed):
+    """--fast: the same matrix cell computed on a scratch worktree of /repo HEAD with the patch applied (several at a time)."""
+    d = os.path.join("/verif/seeded", seed)
+    wt = tempfile.mkdtemp(prefix="seedwt-"); os.rmdir(wt)
+    rc, out = sh(f"git -C /repo worktree add --detach {wt} HEAD")
+    assert rc == 0, out
+    try:
+        rc, out = sh(f"cd {wt} && git apply {d}/patch.diff")
+        if rc != 0:
+            return seed, {"error": "patch does not apply: " + out[-200:]}
+        return seed, run_checks(wt, workers=7)
+    finally:
+        sh(f"git -C /repo worktree remove --force {wt}")
+
 def main():
-    only = sys.argv[1:]
+    fast = "--fast" in sys.argv
+    only = [a for a in sys.argv[1:] if a != "--fast"]
+    precomputed = {}
+    if fast:
+        seeds = [s for s in sorted(os.listdir("/verif/seeded")) if s != "retired" and os.path.isfile(os.path.join("/verif/seeded", s, "patch.diff")) and (not only or s in only)]
+        with concurrent.futures.ThreadPoolExecutor(max_workers=3) as ex:
+            for seed, res in ex.map(fast_one, seeds):
+                precomputed[seed] = res
+                print(seed, {k: v.get("rules") for k, v in res.items() if isinstance(v, dict)}, flush=True)
     rc, out = sh("git -C /repo status --porcelain")
     assert out.strip() == "", "/repo not clean"
     rc, out = sh("cd /verif && ./run.sh --build-only 2>/dev/null; true")
@@ -47,7 +69,13 @@ def main():
             continue
         mp = os.path.join(d, "meta.json")
         meta = json.load(open(mp))
-        if not only or seed in only:
+        if seed in precomputed:
+            meta["checks_reporting"] = precomputed[seed]
+            prop = meta["property"]
+            meta["detected_by_own_property_check"] = prop in meta["checks_reporting"]
+            meta["detected_by_any_check"] = len(meta["checks_reporting"]) > 0 and "error" not in meta["checks_reporting"]
+            json.dump(meta, open(mp, "w"), indent=1)
+        elif not fast and (not only or seed in only):
             rc, out = sh(f"git -C /repo apply {d}/patch.diff")
             try:
                 if rc != 0:
@@ -61,7 +89,8 @@ def main():
             meta["detected_by_any_check"] = len(meta["checks_reporting"]) > 0 and "error" not in meta["checks_reporting"]
             json.dump(meta, open(mp, "w"), indent=1)
         rows.append((seed, meta))
-        print(seed, {k: v.get("rules") for k, v in meta["checks_reporting"].items() if isinstance(v, dict)}, flush=True)
+        if not fast:
+            print(seed, {k: v.get("rules") for k, v in meta["checks_reporting"].items() if isinstance(v, dict)}, flush=True)
     with open("/verif/seeded/INDEX.md", "w") as f:
         f.write("# Independently seeded breaking changes\n\n")
         f.write("Each directory holds `patch.diff` (apply with `git -C /repo apply`), the demonstration test (`demo_test.go`, copied into the package named in `meta.json`), the author's `notes.md` and `meta.json` (what was run to confirm it, which checks report it). ")
